@@ -161,7 +161,7 @@ def run_case(case, ctx):
     Xd = _data_vals(rng, case["ddom"], int(np.prod(shape))).reshape(shape)
     # counts and binary data as a counting process / a comparison hands them over: integer and boolean element types
     dts = {"count": [None, "int64", "int32", "uint8"], "binary": [None, "bool", "uint8", "int64"]}.get(case["ddom"], [None])
-    dt = dts[case["cseed"] % len(dts)]
+    dt = dts[gen.pick(case) % len(dts)]
     ctx.feat(data_type=str(dt))
     X = ttb.tensor(Xd.copy() if dt is None else Xd.astype(dt))
     if case["sparse_data"]:
